@@ -194,8 +194,80 @@ def failed_save(seed=0):
     return fails
 
 
+def late_metadata(seed=0):
+    """The caller's metadata dictionary is empty when the ModelSaver is built and filled before training starts: every
+    checkpoint carries what the dictionary holds when it is written."""
+    from qucumber.callbacks import ModelSaver
+    rng = np.random.default_rng(seed)
+    torch.manual_seed(seed)
+    tmp = tempfile.mkdtemp(prefix="vf_c17m_")
+    fails = []
+    try:
+        md = {}
+        sv = ModelSaver(1, tmp, "ck_{}.pt", save_initial=True, metadata=md)
+        md["run"] = "r7"
+        md["lr"] = 0.01
+        pw = C.make_state("positive", 2, 2)
+        data = torch.tensor(rng.integers(0, 2, size=(4, 2)), dtype=torch.double)
+        pw.fit(data, epochs=2, pos_batch_size=2, neg_batch_size=2, k=1, lr=0.01, callbacks=[sv])
+        for nm in ("initial", 1, 2):
+            got = torch.load(os.path.join(tmp, "ck_%s.pt" % nm), weights_only=False)
+            if got.get("run") != "r7" or got.get("lr") != 0.01:
+                fails.append(("checkpoint ck_%s.pt does not carry the caller's metadata (dictionary filled after the ModelSaver was built)" % nm, sorted(k for k in got if k not in ("rbm_am", "rbm_ph", "unitary_dict"))))
+    finally:
+        shutil.rmtree(tmp, ignore_errors=True)
+    return fails
+
+
+def clashing_names(seed=0):
+    """Metrics / observables whose names are also attributes of the evaluator: subscripting gives the recorded values."""
+    from qucumber.callbacks import MetricEvaluator, ObservableEvaluator
+    from qucumber.observables import SigmaZ
+    rng = np.random.default_rng(seed)
+    torch.manual_seed(seed)
+    st = C.make_state("positive", 2, 2)
+    data = torch.tensor(rng.integers(0, 2, size=(4, 2)), dtype=torch.double)
+    ret = {"wsum": [], "last": [], "epochs": [], "period": []}
+
+    def mk(nm, f):
+        def m(s, **k):
+            v = f(s)
+            ret[nm].append(v)
+            return v
+        return m
+    me = MetricEvaluator(2, {"wsum": mk("wsum", lambda s: float(s.rbm_am.weights.sum())), "last": mk("last", lambda s: float(s.rbm_am.visible_bias.sum())),
+                             "epochs": mk("epochs", lambda s: float(s.rbm_am.hidden_bias.sum())), "period": mk("period", lambda s: 1.5)})
+    oz = SigmaZ()
+    oz.name = "period"
+    oe = ObservableEvaluator(3, [SigmaZ(), oz], num_samples=8, burn_in=1, steps=1)
+    st.fit(data, epochs=6, pos_batch_size=2, neg_batch_size=2, k=1, lr=0.05, callbacks=[me, oe])
+    fails = []
+    for nm in ret:
+        try:
+            got = [float(x) for x in me[nm]]
+        except Exception as e:                       # noqa: BLE001
+            got = repr(e)
+        if got != ret[nm]:
+            fails.append(("MetricEvaluator[%r] is not the list of values recorded for that metric" % nm, got))
+    try:
+        ok = [float(x) for x in oe["period"]["mean"]] == [float(v["period"]["mean"]) for _, v in oe.past_values]
+    except Exception as e:                           # noqa: BLE001
+        ok = False
+    if not ok:
+        fails.append(("ObservableEvaluator['period']['mean'] is not the recorded means of the observable named 'period'", None))
+    return fails
+
+
 def native_check(quick=True):
     fails, n = [], 0
+    f = clashing_names()
+    n += 1
+    if f:
+        fails.append((("names that are also attributes of the evaluator",), f[:2]))
+    f = late_metadata()
+    n += 1
+    if f:
+        fails.append((("metadata dictionary filled after construction",), f[:2]))
     f = failed_save()
     n += 1
     if f:
